@@ -114,28 +114,105 @@ def run(chk, repo):
     lr = repo.func('seqvar.io:line_to_variant_record')
     chk.uses(ts, inf, pa, lr)
 
-    def shift_on(fn, sign):
-        for n in walk_no_nested(fn):
-            if isinstance(n, ast.If) and unparse(n.test) == 'key in constant.ATTRS_POSITION':
-                b = [norm_stmt(s) for s in n.body]
-                return b == [f"val = str(int(val) {sign} 1)"]
-        return False
-    chk.ob('C13.b', 'writer shifts exactly constant.ATTRS_POSITION by +1', inf.where, shift_on(inf.node, '+'),
-           'VariantRecord.info no longer shifts the position attributes of constant.ATTRS_POSITION by +1', key=inf.qual + '::shift', fn=inf.qual)
-    chk.ob('C13.b', 'reader shifts exactly constant.ATTRS_POSITION by -1', pa.where, shift_on(pa.node, '-'),
-           'parse_attrs no longer shifts the position attributes of constant.ATTRS_POSITION by -1', key=pa.qual + '::shift', fn=pa.qual)
-    pos_w = any(norm_stmt(s) == 'pos = str(int(self.location.start) + 1)' for s in ts.node.body)
-    pos_r = any(norm_stmt(s) == 'start = int(fields[1]) - 1' for s in lr.node.body)
-    chk.ob('C13.b', 'POS written 1-based and read back 0-based', ts.where, pos_w and pos_r, f"writer +1: {pos_w}; reader -1: {pos_r}", key='seqvar.io::pos')
-    join = None
-    for n in walk_no_nested(ts.node):
-        if isinstance(n, ast.Return) and isinstance(n.value, ast.Call) and call_name(n.value) == 'join':
-            join = [unparse(e) for e in n.value.args[0].elts]
-    rb = {unparse(n.targets[0]): unparse(n.value) for n in walk_no_nested(lr.node) if isinstance(n, ast.Assign) and 'fields[' in unparse(n.value)}
-    ok = join == ['chrom', 'pos', '_id', 'ref', 'alt', 'qual', '_filter', 'info'] and rb.get('gene_id') == 'fields[0]' and \
-        rb.get('ref') == 'fields[3]' and rb.get('alt') == 'fields[4]' and rb.get('_id') == 'fields[2]' and rb.get('attrs') == 'parse_attrs(fields[7])'
-    chk.ob('C13.b', 'column order agrees', ts.where, ok, f"writer {join}; reader {rb}", key='seqvar.io::columns')
-    up = 'key.upper()' in unparse(inf.node)
+    # E9 partial evaluation (sa/peval.py): what each side computes, whatever its control structure or local names
+    from sa.peval import PEval, repo_consts, show as _show, Unk
+    from sa.affine import simple_aff as _saff
+
+    def one_item(fn, position: bool):
+        """value stored / emitted for one attribute when `key in constant.ATTRS_POSITION` is `position` (and the value is no list)"""
+        outs = []
+        for assume_list in (False,):
+            pe = PEval(resolve_const=repo_consts(repo, fn.module), assume={})
+
+            class PE2(PEval):
+                def decide(self2, v, st):
+                    t = _show(v)
+                    if 'ATTRS_POSITION' in t and ' in ' in t:
+                        neg = ' not in ' in t
+                        return position != neg
+                    if t.startswith('isinstance('):
+                        return False
+                    return PEval.decide(self2, v, st)
+            pe = PE2(resolve_const=None)
+            for o in pe.run(fn.node, {}):
+                outs.append(o)
+        return outs
+
+    def writer_item(position):
+        vals = set()
+        for o in one_item(inf, position):
+            for ef in o.effects:
+                if ef[0] == 'aug' and ef[2] == 'Add':
+                    vals.add(_show(ef[3]))
+        return vals
+
+    def reader_item(position):
+        vals = set()
+        for o in one_item(pa, position):
+            for ef in o.effects:
+                if ef[0] == 'item':
+                    vals.add((_show(ef[2]), _show(ef[3])))
+        return vals
+    wp, wn = writer_item(True), writer_item(False)
+    # f'{key.upper()}={value};' : the value written for a position attribute is str(int(v) + 1) where v is what is written otherwise
+    def w_val(t):
+        m_ = re.match(r"^f'\{(.+?)\}=\{(.+)\};'$", t)
+        return (m_.group(1), m_.group(2)) if m_ else (None, None)
+    okw = len(wp) == 1 and len(wn) == 1
+    wkey = None
+    if okw:
+        (k1, v1), (k0, v0) = w_val(next(iter(wp))), w_val(next(iter(wn)))
+        wkey = k1
+        okw = k1 is not None and k1 == k0 and v0 is not None and re.sub(r'\s', '', v1) == re.sub(r'\s', '', f"str(int({v0}) + 1)")
+    chk.ob('C13.b', 'writer shifts exactly constant.ATTRS_POSITION by +1', inf.where, okw,
+           f"VariantRecord.info no longer shifts the position attributes of constant.ATTRS_POSITION by +1 (position attribute written as {sorted(wp)}, others as {sorted(wn)})",
+           key=inf.qual + '::shift', fn=inf.qual)
+    rp, rn = reader_item(True), reader_item(False)
+    okr = len(rp) == 1 and len(rn) == 1
+    if okr:
+        (kk1, rv1), (kk0, rv0) = next(iter(rp)), next(iter(rn))
+        okr = kk1 == kk0 and re.sub(r'\s', '', rv1) == re.sub(r'\s', '', f"str(int({rv0}) - 1)")
+    chk.ob('C13.b', 'reader shifts exactly constant.ATTRS_POSITION by -1', pa.where, okr,
+           f"parse_attrs no longer shifts the position attributes of constant.ATTRS_POSITION by -1 (position attribute stored as {sorted(rp)}, others as {sorted(rn)})",
+           key=pa.qual + '::shift', fn=pa.qual)
+
+    def writer_columns(T):
+        pe = PEval(resolve_const=repo_consts(repo, ts.module), record=('join',))
+        cols = []
+        for o in pe.run(ts.node, {'self.type': T}):
+            if o.kind == 'return':
+                js = [c for c in o.calls if c['name'] == 'join' and c['args'] and isinstance(c['args'][0], list) and len(c['args'][0]) == 8]
+                cols.append(js[-1]['args'][0] if js else None)
+        return cols
+
+    def reader_fields(alt):
+        pe = PEval(resolve_const=repo_consts(repo, lr.module), record=('VariantRecord', 'FeatureLocation'))
+        res = []
+        for o in pe.run(lr.node, {'fields[4]': alt} if alt is not None else {}):
+            if o.kind != 'return':
+                res.append(('raise', None, None))
+                continue
+            vr = [c for c in o.calls if c['name'] == 'VariantRecord']
+            fl = [c for c in o.calls if c['name'] == 'FeatureLocation']
+            res.append(('return', vr[-1]['kwargs'] if vr else {}, fl[-1]['kwargs'] if fl else {}))
+        return res
+    wc = writer_columns('SNV')
+    cols = [_show(x) for x in wc[0]] if len(wc) == 1 and wc[0] else None
+    pos_w = cols is not None and re.sub(r'\s', '', cols[1]) == 'str(int(self.location.start)+1)'
+    rf = [r_ for r_ in reader_fields(None) if r_[0] == 'return']
+    F = "line.rstrip().split('\\t')"
+    starts = {_show(r_[2].get('start')) for r_ in rf}
+    pos_r = starts == {f"int({F}[1]) - 1"}
+    chk.ob('C13.b', 'POS written 1-based and read back 0-based', ts.where, pos_w and pos_r, f"writer column 2 {cols[1] if cols else None}; reader start {sorted(starts)}", key='seqvar.io::pos')
+    okc = cols is not None and cols[0] == 'self.location.seqname' and cols[2] == 'self.id' and cols[3] == 'str(self.ref)' and cols[4] == 'str(self.alt)' \
+        and cols[5] == cols[6] == "'.'" and cols[7] == 'self.info'
+    rb = {}
+    if rf:
+        kw, fl = rf[0][1], rf[0][2]
+        rb = {'gene_id': _show(fl.get('seqname')), 'ref': _show(kw.get('ref')), 'alt': _show(kw.get('alt')), '_id': _show(kw.get('_id')), 'attrs': _show(kw.get('attrs'))}
+    okc = okc and rb == {'gene_id': f"{F}[0]", 'ref': f"{F}[3]", 'alt': f"{F}[4]", '_id': f"{F}[2]", 'attrs': f"parse_attrs({F}[7])"}
+    chk.ob('C13.b', 'column order agrees', ts.where, okc, f"writer {cols}; reader {rb}", key='seqvar.io::columns')
+    up = wkey is not None and wkey.endswith('[0].upper()') and wkey.count('(') == 2
     chk.ob('C13.b', 'attribute keys are written upper-case (position table is upper-case)', inf.where, up,
            'keys no longer upper-cased on write', key=inf.qual + '::upper', fn=inf.qual)
 
@@ -143,71 +220,40 @@ def run(chk, repo):
     chk.rule('C13.c', 'ALT symbol table: writer symbols accepted by the reader, mapped back; END == location end', 8)
     types = ast.literal_eval(repo.const('seqvar.VariantRecord', '_VARIANT_TYPES'))
     snsub = ast.literal_eval(repo.const('constant', 'SINGLE_NUCLEOTIDE_SUBSTITUTION'))
-    # fold writer branches
-    wsym = {}
-    chain = next((s for s in ts.node.body if isinstance(s, ast.If)), None)
-    branches = []
-    st = chain
-    while st is not None:
-        branches.append((st.test, st.body))
-        if len(st.orelse) == 1 and isinstance(st.orelse[0], ast.If):
-            st = st.orelse[0]
-        else:
-            branches.append((None, st.orelse))
-            st = None
-
-    def alt_of(body, T):
-        for s in body:
-            if isinstance(s, ast.Assign) and unparse(s.targets[0]) == 'alt':
-                v = s.value
-                if isinstance(v, ast.Constant):
-                    return v.value
-                t = fstring_text(v)
-                t = t.replace('{self.type.upper()[:3]}', T.upper()[:3]).replace('{self.type.upper()}', T.upper())
-                if t == '{str(self.alt)}':
-                    return None
-                return t
-        return None
-    for T in types:
-        for test, body in branches:
-            hit = test is None
-            if test is not None:
-                tt = unparse(test)
-                if tt == 'self.type in constant.SINGLE_NUCLEOTIDE_SUBSTITUTION':
-                    hit = T in snsub
-                elif tt.startswith('self.type == '):
-                    hit = T == ast.literal_eval(test.comparators[0])
-                elif tt.startswith('self.type in '):
-                    hit = T in ast.literal_eval(test.comparators[0])
-                else:
-                    raise AnalysisError(f"anchor={ts.qual}: unrecognised type dispatch '{tt}'")
-            if hit:
-                wsym[T] = alt_of(body, T)
-                break
-    # reader table
-    rsym = {}
-    st = next((s for s in lr.node.body if isinstance(s, ast.If)), None)
-    while st is not None:
-        tt = unparse(st.test)
-        m = re.fullmatch(r"alt == '(<[A-Z]+>)'", tt)
-        if m:
-            ty = [ast.literal_eval(s.value) for s in st.body if isinstance(s, ast.Assign) and unparse(s.targets[0]) == '_type']
-            en = [unparse(s.value) for s in st.body if isinstance(s, ast.Assign) and unparse(s.targets[0]) == 'end']
-            rsym[m.group(1)] = (ty[0] if ty else None, en[0] if en else None)
-        if len(st.orelse) == 1 and isinstance(st.orelse[0], ast.If):
-            st = st.orelse[0]
-        else:
-            st = None
     gvf_types = [T for T in types if T not in ('circRNA', 'SECT', 'W2F')]
-    end_rule = {'Fusion': 'start + 1', 'Insertion': 'start + 1', 'Deletion': "int(attrs['END'])", 'Substitution': "int(attrs['END'])"}
     for T in gvf_types:
-        sym = wsym.get(T)
+        wcs = writer_columns(T)
+        syms = {(_show(c[4]) if isinstance(c[4], Unk) else c[4]) if c else None for c in wcs}
         if T in snsub:
-            chk.ob('C13.c', f"{T}: written as plain REF/ALT", ts.where, sym is None, f"{T} written as {sym}", key=f"seqvar.io::symbol::{T}")
+            chk.ob('C13.c', f"{T}: written as plain REF/ALT", ts.where, syms == {'str(self.alt)'}, f"{T} written as {sorted(map(str, syms))}", key=f"seqvar.io::symbol::{T}")
             continue
-        ok = sym in rsym and rsym[sym][0] == T and rsym[sym][1] == end_rule.get(T)
-        chk.ob('C13.c', f"{T}: writer symbol {sym} read back as {T} with end = {end_rule.get(T)}", lr.where, ok,
-               f"writer emits {sym} for {T}; reader table {rsym}", key=f"seqvar.io::symbol::{T}")
+        sym = next(iter(syms)) if len(syms) == 1 else None
+        got = reader_fields(sym) if isinstance(sym, str) and sym.startswith('<') else []
+        ok = bool(got) and all(g[0] == 'return' for g in got)
+        seen = []
+        for g in got:
+            if g[0] != 'return':
+                seen.append('raises')
+                continue
+            ty = g[1].get('_type')
+            st_t, en_t = _show(g[2].get('start')), _show(g[2].get('end'))
+            rel = en_t.replace(st_t, 'START') if st_t else en_t
+            if T in ('Deletion', 'Substitution'):
+                end_ok = bool(re.fullmatch(r"int\(.*\['END'\]\)", en_t))
+                end_s = "int(attrs['END'])" if end_ok else en_t
+            else:
+                try:
+                    a_ = _saff(ast.parse(rel, mode='eval').body)
+                except SyntaxError:
+                    a_ = None
+                from sa.affine import Aff as _Aff
+                end_ok = a_ is not None and a_ == _Aff.sym('START') + 1
+                end_s = 'start + 1' if end_ok else rel
+            seen.append((ty, end_s))
+            ok = ok and ty == T and end_ok
+        want_end = "int(attrs['END'])" if T in ('Deletion', 'Substitution') else 'start + 1'
+        chk.ob('C13.c', f"{T}: writer symbol {sym} read back as {T} with end = {want_end}", lr.where, ok,
+               f"writer emits {sorted(map(str, syms))} for {T}; reader gives {seen}", key=f"seqvar.io::symbol::{T}")
     # END attribute equals the location end where Deletion / Substitution records are built
     n_end = 0
     for f in repo.funcs_in('seqvar.SplicingJunction', 'parser.RMATSParser'):
@@ -230,12 +276,28 @@ def run(chk, repo):
     tl = repo.func('seqvar.GVFIndex:GVFPointer.to_line')
     pr = repo.func('seqvar.GVFIndex:GVFPointer.parse')
     chk.uses(tl, pr)
+    # writer: three tab-separated fields key, start, length;  reader: unpacks the same three and rebuilds end = start + length
     wt = fstring_text(tl.node.body[-1].value) if isinstance(tl.node.body[-1], ast.Return) else ''
-    ok = wt == '{self.key}\t{int(self.start)}\t{str(len(self))}'
-    rtxt = unparse(pr.node)
-    okr = "key, start, length = line.rstrip().split('\\t')" in rtxt and 'end = start + int(length)' in rtxt and 'start = int(start)' in rtxt
+    wfields = [re.sub(r'^\{(?:str|int)\((.*)\)\}$', r'{\1}', x) for x in wt.split('\t')]
+    wfields = [re.sub(r'^\{(?:str|int)\((.*)\)\}$', r'{\1}', x) for x in wfields]
+    ok = wfields == ['{self.key}', '{self.start}', '{len(self)}']
+    from sa import sem as _s13d
+    pch = _s13d.block_chains(pr.node)
+    okr = False
+    rdet = 'reader unpack / constructor not found'
+    unp = [n for n in ast.walk(pr.node) if isinstance(n, ast.Assign) and isinstance(n.targets[0], ast.Tuple) and len(n.targets[0].elts) == 3
+           and all(isinstance(e, ast.Name) for e in n.targets[0].elts) and isinstance(n.value, ast.Call) and call_name(n.value) == 'split'
+           and [unparse(a) for a in n.value.args] == ["'\\t'"]]
+    ctor = [(st, c) for st in ast.walk(pr.node) if isinstance(st, ast.stmt) and _s13d.own_stmt(st) for c in _s13d.calls_in_stmt(st, 'cls')]
+    if len(unp) == 1 and len(ctor) == 1:
+        k_, s_, l_ = (e.id for e in unp[0].targets[0].elts)
+        st_, c_ = ctor[0]
+        got = {a: re.sub(r'\s', '', unparse(_s13d.expand_names(pr.node, st_, kwarg(c_, a), chains=pch, allow_calls=('int',)))) if kwarg(c_, a) is not None else None
+               for a in ('key', 'start', 'end')}
+        okr = got == {'key': k_, 'start': f'int({s_})', 'end': f'int({s_})+int({l_})'}
+        rdet = f"reader builds {got} from the fields ({k_}, {s_}, {l_})"
     chk.ob('C13.d', 'idx line = key, start, length; reader end = start + length', tl.where, ok and okr,
-           f"writer '{wt}'; reader agreement {okr}", key='seqvar.GVFIndex::idx-columns')
+           f"writer fields {wfields}; {rdet}", key='seqvar.GVFIndex::idx-columns')
     ln = repo.func('seqvar.GVFIndex:GVFPointer.__len__')
     chk.ob('C13.d', 'pointer length = end - start', ln.where, unparse(ln.node.body[-1]) == 'return self.end - self.start', 'len altered', key=ln.qual, fn=ln.qual)
     ig = repo.func('cli.index_gvf:index_gvf')
@@ -251,9 +313,11 @@ def run(chk, repo):
                     and (len(v) == 3 and isinstance(v[2], ast.Constant) and v[2].value == '\n'):
                 wpre = v[0].value
     wck = wpre is not None and wpre.startswith('#') and wpre.endswith('=')
-    vchains = _s13.block_chains(vg.node)
     rkeys, rvals = [], []
-    for st in ast.walk(vg.node):
+    for vfn in _s13.with_new_helpers(repo, vg):
+      vnode = vfn.node
+      vchains = _s13.block_chains(vnode)
+      for st in ast.walk(vnode):
         if not isinstance(st, ast.stmt):
             continue
         own = [st.test] if isinstance(st, (ast.If, ast.While)) else ([st] if _s13.own_stmt(st) else [])
@@ -261,11 +325,11 @@ def run(chk, repo):
             for c in ast.walk(root):
                 if isinstance(c, ast.Call) and isinstance(c.func, ast.Attribute) and c.func.attr == 'startswith' and len(c.args) == 1 \
                         and isinstance(c.args[0], ast.Constant) and 'CHECKSUM' in str(c.args[0].value):
-                    recv = unparse(_s13.expand_names(vg.node, st, c.func.value, chains=vchains, allow_calls=('rstrip', 'lstrip', 'strip')))
+                    recv = unparse(_s13.expand_names(vnode, st, c.func.value, chains=vchains, allow_calls=('rstrip', 'lstrip', 'strip')))
                     rkeys.append((c.args[0].value, recv))
                 if isinstance(c, ast.Subscript) and isinstance(c.value, ast.Call) and isinstance(c.value.func, ast.Attribute) and c.value.func.attr == 'split' \
                         and [unparse(a) for a in c.value.args] == ["'='"] and unparse(c.slice) == '1':
-                    rvals.append(unparse(_s13.expand_names(vg.node, st, c.value.func.value, chains=vchains, allow_calls=('rstrip', 'lstrip', 'strip'))))
+                    rvals.append(unparse(_s13.expand_names(vnode, st, c.value.func.value, chains=vchains, allow_calls=('rstrip', 'lstrip', 'strip'))))
     stripped = re.compile(r"^\w+\.rstrip\(\)\.lstrip\('# '\)$|^\w+\.strip\(\)\.lstrip\('# '\)$")
     rck = len(rkeys) == 1 and wck and rkeys[0][0] == wpre.lstrip('# ') and bool(stripped.match(rkeys[0][1])) and rvals == [rkeys[0][1]]
     chk.ob('C13.d', 'checksum key written and read', ig.where, wck and rck, f"writer prefix {wpre!r}; reader tests {rkeys}, takes the value from {rvals}", key='seqvar::checksum-key')
@@ -305,36 +369,10 @@ def run(chk, repo):
         and [norm_stmt(s) for s in after[0].body] == ['yield pointer']
     chk.ob('C13.e', 'trailing pointer is yielded after the loop', repo.loc(ip, loop), ok,
            'the last run of records gets no pointer (its transcript is invisible through the index)', key=ip.qual + '::drain', fn=ip.qual)
-    acc = [n for n in icfg.nodes if n.kind == 'stmt' and norm_stmt(n.ast) == 'line_end += len(line)']
-    dec = [n for n in icfg.nodes if n.kind == 'stmt' and isinstance(n.ast, ast.Assign) and unparse(n.ast.targets[0]) == 'line' and '.decode(' in unparse(n.ast.value)]
-    st = [n for n in icfg.nodes if n.kind == 'stmt' and norm_stmt(n.ast) == 'line_start = line_end']
-    ok = len(acc) == 1 and len(dec) == 1 and len(st) == 1 and icfg.dominates(acc[0].id, dec[0].id) and icfg.dominates(st[0].id, acc[0].id)
-    chk.ob('C13.e', 'offsets accumulate len() of the raw bytes line (before decode), for every line incl. comments', repo.loc(ip, loop), ok,
-           'line offsets are not accumulated from the byte length of every line before decoding (multi-byte characters / comment lines shift all later pointers)',
-           key=ip.qual + '::byte-offsets', fn=ip.qual)
-    # comment skip comes after accumulation
-    cont = [n for n in icfg.nodes if n.kind == 'test' and unparse(n.ast) == "line.startswith('#')"]
-    ok = len(cont) == 1 and len(acc) == 1 and icfg.dominates(acc[0].id, cont[0].id)
-    chk.ob('C13.e', 'comment lines are skipped only after their bytes were counted', repo.loc(ip, loop), ok,
-           'comment lines are skipped before their length is added to the offset', key=ip.qual + '::comment-offset', fn=ip.qual)
-    # key change / extend
-    ifs = [n for n in walk_no_nested(loop) if isinstance(n, ast.If) and unparse(n.test) in ('cur_key != key', 'key != cur_key')]
-    ok = len(ifs) == 1 and [norm_stmt(s) for s in ifs[0].orelse] == ['pointer.end = line_end']
-    if ok:
-        body = ifs[0].body
-        ok = isinstance(body[0], ast.If) and [norm_stmt(s) for s in body[0].body] == ['yield pointer'] and \
-            unparse(body[0].test) in ('not cur_key is None', 'cur_key is not None') and \
-            any(isinstance(s, ast.Assign) and unparse(s.targets[0]) == 'pointer' and call_name(s.value) == 'GVFPointer'
-                and unparse(kwarg(s.value, 'start')) == 'line_start' and unparse(kwarg(s.value, 'end')) == 'line_end'
-                and unparse(kwarg(s.value, 'key')) in ('cur_key', 'key') for s in body)
-    chk.ob('C13.e', 'new pointer [line_start, line_end) on key change (previous yielded); end extended on equal key', repo.loc(ip, loop), ok,
-           'pointer open/extend/yield logic altered', key=ip.qual + '::open-extend', fn=ip.qual)
+    pointer_runs(chk, repo, 'C13.e', ip, loop)
     byte_offsets(chk, repo, 'C13.e', 'seqvar.GVFIndex:iterate_pointer')
-    rdp = repo.func('seqvar.GVFIndex:GVFPointer.__iter__')
-    t = unparse(rdp.node)
-    ok = 'self.handle.seek(offset, 1)' in t and 'offset = self.start - cur' in t and 'self.handle.read(len(self))' in t and ".decode('utf-8')" in t
-    chk.ob('C13.e', 'pointer reader seeks to start and reads len() bytes, then decodes', rdp.where, ok,
-           'GVFPointer.__iter__ byte-range read altered', key=rdp.qual + '::byte-read', fn=rdp.qual)
+    from rules.shared import pointer_byte_range
+    pointer_byte_range(chk, repo, 'C13.e', 'seqvar.GVFIndex:GVFPointer.__iter__', 'GVFPointer.__iter__', key_suffix='::byte-read')
 
     # ------------------------------------------------------------------ f
     chk.rule('C13.f', 'R-COVER: every pointer read from an index / generated from a GVF is registered (no value-based de-duplication across files)', 2)
@@ -401,6 +439,85 @@ def run(chk, repo):
     from rules.shared import kwname
     chk.clauses.append('C13.kw (shared R-THREAD) parameters handed on as keyword arguments keep their name: no `a=b` between two parameters of one function')
     kwname(chk, repo, 'C13.kw', ['seqvar', 'circ', 'cli.index_gvf'], floor=0)
+
+def pointer_runs(chk, repo, rid, ip, loop):
+    """Value-based reading of the pointer generator (affine summary of ONE iteration, sa/loops.py + must-facts):
+    some accumulator grows by len(<raw line>) on EVERY iteration path (comment lines included, before any re-binding of the
+    line), a new pointer is [acc_in, acc_in + len(raw)), an extension sets end = acc_in + len(raw); a pointer is opened exactly
+    when the key differs from the current one, the previous one being yielded unless there is none."""
+    from sa import sem, loops
+    from sa.affine import Aff
+    X = loop.target.id if isinstance(loop.target, ast.Name) else None
+    cands = sorted({unparse(n.target) for n in ast.walk(loop) if isinstance(n, ast.AugAssign) and isinstance(n.target, ast.Name) and isinstance(n.op, ast.Add)})
+    ok_acc, ACC, paths = False, None, []
+    if X is not None:
+        for c_ in cands:
+            ps = loops.iteration_paths(loop, 1, [c_], canon=lambda t: t, record=('GVFPointer',))
+            if ps and all(p_.delta.get(c_) == Aff.sym(f"len({X})") for p_ in ps):
+                ok_acc, ACC, paths = True, c_, ps
+                break
+    chk.paths += len(paths)
+    chk.ob(rid, 'offsets accumulate len() of the raw bytes line (before decode), for every line incl. comments', repo.loc(ip, loop), ok_acc,
+           f"no offset accumulator advances by len({X}) of the raw line on every iteration path (candidates {cands}): line offsets are not accumulated from the byte "
+           'length of every line before decoding (multi-byte characters / comment lines shift all later pointers)', key=ip.qual + '::byte-offsets', fn=ip.qual)
+    # comment lines: some path leaves the iteration under `<decoded line>.startswith('#')` and it, too, advanced the accumulator (implied by
+    # ok_acc); the skip itself must exist so that comment lines never reach the record parser
+    skips = [st for st, fx in sem.facts_where(ip.node, lambda st: isinstance(st, ast.Continue))
+             if fx is not None and any(re.match(r"^\w+\.startswith\('#'\)$", t) and v for t, v in sem.sure_literals(fx))]
+    chk.ob(rid, 'comment lines are skipped only after their bytes were counted', repo.loc(ip, loop), ok_acc and len(skips) >= 1,
+           'comment lines are skipped before their length is added to the offset (or are not skipped)', key=ip.qual + '::comment-offset', fn=ip.qual)
+    # pointer intervals
+    ok_iv, det = ok_acc, ''
+    n_ctor = 0
+    if ok_acc:
+        a_in = Aff.sym(f"{ACC}@in")
+        a_out = a_in + Aff.sym(f"len({X})")
+        for p_ in paths:
+            for l_ in p_.p.locs:
+                if l_['ctor'] != 'GVFPointer':
+                    continue
+                n_ctor += 1
+                kw = l_['kwargs']
+                if not (kw.get('start') == a_in and kw.get('end') == a_out):
+                    ok_iv, det = False, f"a pointer is opened as [{kw.get('start')!r}, {kw.get('end')!r}) instead of [{a_in!r}, {a_out!r})"
+        ext = [n for n in ast.walk(loop) if isinstance(n, ast.Assign) and len(n.targets) == 1 and isinstance(n.targets[0], ast.Attribute) and n.targets[0].attr == 'end']
+        for n in ext:
+            vals = {repr(p_.p.env.get(n.value.id)) if isinstance(n.value, ast.Name) else unparse(n.value) for p_ in paths}
+            if vals != {repr(a_out)}:
+                ok_iv, det = False, f"`{norm_stmt(n)}` extends the pointer to {sorted(vals)} instead of {a_out!r}"
+        if n_ctor == 0 or len(ext) != 1:
+            ok_iv, det = False, det or f"{n_ctor} pointer constructions / {len(ext)} extensions found"
+    # run logic from must-facts
+    CK = K = None
+    for n in ast.walk(loop):
+        if isinstance(n, ast.Assign) and len(n.targets) == 1 and isinstance(n.targets[0], ast.Name) and isinstance(n.value, ast.Name):
+            a_, b_ = n.targets[0].id, n.value.id
+            if any(isinstance(s_, ast.Assign) and unparse(s_.targets[0]) == a_ and isinstance(s_.value, ast.Constant) and s_.value.value is None for s_ in ip.node.body):
+                CK, K = a_, b_
+    ok_run = CK is not None
+    if ok_run:
+        same = sem.lit(f"{CK} == {K}")
+        def at(pred):
+            return [(st, sem.sure_literals(fx)) for st, fx in sem.facts_where(ip.node, pred) if fx is not None and any(st is x for x in ast.walk(loop))]
+        opens = at(lambda st: sem.own_stmt(st) and bool(sem.calls_in_stmt(st, 'GVFPointer')))
+        exts = at(lambda st: isinstance(st, ast.Assign) and isinstance(st.targets[0], ast.Attribute) and st.targets[0].attr == 'end')
+        ylds = at(lambda st: isinstance(st, ast.Expr) and isinstance(st.value, ast.Yield))
+        sets = at(lambda st: isinstance(st, ast.Assign) and unparse(st.targets[0]) == CK)
+        neq = (same[0], not same[1])
+        chains_ = sem.block_chains(ip.node)
+
+        def same_block(a, b):
+            ca, cb = chains_.get(id(a)), chains_.get(id(b))
+            return bool(ca and cb) and ca[0][0] is cb[0][0]
+        # the key is rebound right where the pointer is opened: the != fact is read at whichever of the two comes first
+        ok_run = len(opens) == 1 and len(sets) == 1 and same_block(opens[0][0], sets[0][0]) and (neq in opens[0][1] or neq in sets[0][1]) and \
+            len(exts) == 1 and same in exts[0][1] and len(ylds) == 1 and neq in ylds[0][1] and sem.lit(f"{CK} is None", False) in ylds[0][1]
+        if ok_run:
+            c_ = sem.calls_in_stmt(opens[0][0], 'GVFPointer')[0]
+            ok_run = kwarg(c_, 'key') is not None and unparse(kwarg(c_, 'key')) in (CK, K)
+    chk.ob(rid, 'new pointer [line_start, line_end) on key change (previous yielded); end extended on equal key', repo.loc(ip, loop), ok_iv and ok_run,
+           'pointer open/extend/yield logic altered' + (': ' + det if det else ''), key=ip.qual + '::open-extend', fn=ip.qual)
+
 
 def byte_offsets(chk, repo, rid, qual):
     """Typestate on the line variable of a pointer generator: offsets are advanced by len() of the RAW
